@@ -3,6 +3,7 @@ import TTGen.C15_Tuning
 import TTGen.C15_RunOrder
 import TTProofs.Lemmas.C15_Real
 import TTProofs.Lemmas.C15_Frame
+import TTProofs.Lemmas.C15_Block
 import Mathlib.Analysis.SpecialFunctions.Log.Basic
 import Mathlib.Analysis.SpecialFunctions.Sqrt
 import Mathlib.Analysis.Calculus.Deriv.Mul
@@ -642,8 +643,7 @@ example : ValidScale .dirichlet 2 ∧ ((24 : ℝ) / 100 ≤ 1) := by
 
 end tuning
 
-/-! ## GMRF block update: the precision multiplier (the Gaussian part of its Hastings
-bookkeeping is NOT modelled — partial) -/
+/-! ## GMRF block update: precision multiplier and the Gaussian terms (`block_hr`) -/
 
 section block
 
@@ -693,6 +693,53 @@ theorem precision_multiplier_range (s u : ℝ) (hs : 1 < s) (hu0 : 0 ≤ u) (hu1
     have : 1 / s < 1 := by rw [div_lt_one (by linarith)]; exact hs
     linarith
   constructor <;> nlinarith
+
+open Matrix in
+/-- **block_hr**: the value `GMRFPiecewiseCoalescentBlockUpdatingOperator._step` returns is
+`log N(γ; μ_b, P_b⁻¹) − log N(γ′; μ_f, P_f⁻¹)`: log-density of the current field under the backward Gaussian
+kernel minus log-density of the proposed field under the forward one — for ANY mode-finder outputs (they
+only enter through `P_f, μ_f, P_b, μ_b`, which are arbitrary here), any precision matrices.
+Contracts of the linear algebra the code calls, as hypotheses: `cholesky` returns an upper triangular `U`
+with `P = UᵀU` and diagonal above the code's `1e-7` threshold (`thr`); `u = solve(U, z)` satisfies
+`U u = z` with `γ′ = μ_f + u`. The `(2π)^{-n/2}` factors, which the code omits, cancel. -/
+theorem block_hr {n : ℕ} (thr : ℝ) (hthr : 0 ≤ thr) (Uf Ub Pf Pb : Matrix (Fin n) (Fin n) ℝ)
+    (z γ γ' μf μb : Fin n → ℝ)
+    (hUf : Uf.BlockTriangular id) (hPf : Pf = Ufᵀ * Uf) (hdf : ∀ i, thr < Uf i i)
+    (hz : Uf *ᵥ (γ' - μf) = z)
+    (hUb : Ub.BlockTriangular id) (hPb : Pb = Ubᵀ * Ub) (hdb : ∀ i, thr < Ub i i) :
+    blockHastings (1 / 2) thr (fun i j => Uf i j) z (fun i j => Ub i j) (fun i j => Pb i j)
+        (fun i => γ i - μb i)
+      = gaussLog γ μb Pb - gaussLog γ' μf Pf := by
+  have hf := logDiagSum_eq thr hthr Uf hUf hdf
+  have hb := logDiagSum_eq thr hthr Ub hUb hdb
+  have hq := quad_of_chol Uf (γ' - μf)
+  rw [hz, ← hPf] at hq
+  have hzz : (sumFin fun i => z i * z i) = z ⬝ᵥ z := by simp [sumFin_eq_sum, dotProduct]
+  have hdd : (sumFin fun i => (γ i - μb i) * sumFin fun j => Pb i j * (γ j - μb j))
+      = (γ - μb) ⬝ᵥ (Pb *ᵥ (γ - μb)) := by
+    simp [sumFin_eq_sum, dotProduct, mulVec]
+  unfold blockHastings logQBackward logQForward gaussLog
+  rw [hf, hb, hzz, hdd, hq, ← hPf, ← hPb]
+  ring
+
+/-- with the precision move: the full proposal density of the block update is
+`q((γ′,τ′)|(γ,τ)) = g(f)/τ · N(γ′; μ_f, P_f⁻¹)`, `τ′ = fτ`, and since `g(1/f) = f g(f)`
+(`precision_multiplier_symmetric`) the precision factors cancel in the ratio: the returned Gaussian
+difference IS the log Hastings ratio of the whole move. -/
+theorem block_hr_full (s f τ gb gf : ℝ) (hs : 1 < s) (hf : 0 < f) (hτ : 0 < τ) :
+    (Real.log (multiplierDensity s (1 / f) / (f * τ)) + gb)
+      - (Real.log (multiplierDensity s f / τ) + gf) = gb - gf := by
+  rw [precision_multiplier_symmetric s f hs hf]
+  have hg : 0 < multiplierDensity s f := by
+    rw [multiplier_density_eq s f hs hf]
+    have hlog : 0 < Real.log s := Real.log_pos hs
+    have hlen : 0 < s - 1 / s := by
+      have : 1 / s < 1 := by rw [div_lt_one (by linarith)]; exact hs
+      linarith
+    positivity
+  have : f * multiplierDensity s f / (f * τ) = multiplierDensity s f / τ := by
+    field_simp
+  rw [this]; ring
 
 end block
 
